@@ -5,6 +5,7 @@ CONSTANTS
   FetchMax = 2
   WideEvery = 2
   OffsetReset = "all"
+  LateResp = "drop"
   HWFallback = TRUE
   ElectAlive = TRUE
   AllowLag = TRUE
